@@ -146,6 +146,23 @@ extern "C" void h_resource_rooted(void) {
   } VF_CATCH
 }
 // type listing: loose files of the type, then archive members of the type not already listed (ignoring case)
+// two archives with overlapping member names (ignoring case) and no loose file of that name: listed once
+static const EncMember MS2[2] = { { "A.TXT", 1, 0x100 }, { "z.txt", 1, 0x100 } };
+extern "C" void h_type_listing_two(void) {
+  put_vol(0, "r.vol");
+  { uint8_t* f = vfs_data(1); vf_havoc(f, VFS_CAP); uint32_t po[2]; uint32_t n = vol_encode(f, MS2, 2, 0, 0, po); vfs_set(1, "t.vol", 1, n); }
+  vfs_commit();
+  g_may_throw = false;
+  VF_TRY {
+    ResourceManager rm(ROOT);
+    auto txt = rm.GetAllFilenamesOfType(".txt", true);
+    // (the order in which the two volumes are loaded is the directory's: do not depend on it)
+    int na = 0, nz = 0;
+    for (auto& n : txt) { if (vc_equal_fold(n.c_str(), "a.txt")) na++; if (n == "z.txt") nz++; }
+    vf_assert(txt.size() == 2 && na == 1 && nz == 1, "a member name found in two archives (ignoring case) is listed once");
+    VF_WITNESS();
+  } VF_CATCH
+}
 extern "C" void h_type_listing(void) {
   put_vol(0, "r.vol"); put_clm(1, "s.clm");
   vfs_set(2, "A.TXT", 1, 0); vfs_set(3, "n.txt", 1, 0); vfs_set(4, "c.bin", 1, 0);
